@@ -81,6 +81,26 @@ def fails_of(c, items, cls):
     return out
 
 
+def served_fails(c, sv):
+    """ChainOps!ServedOk on the tables of the case (stage two)"""
+    out = []
+    ok = sv["rcode"] in ("NOERROR", "NXDOMAIN")
+    al = c["allow"]
+    if sv["ad"]:
+        if not ok:
+            out.append(("ad-not-allowed", None))
+        elif sv["ans"]:
+            out += [("ad-not-allowed", x) for x in sv["ans"] if not (x in al and al[x]["sec"])]
+        elif not c["negSecure"]:
+            out.append(("ad-not-allowed", None))
+    if ok and not sv["cd"]:
+        if sv["ans"]:
+            out += [("served-to-cd0-not-allowed", x) for x in sv["ans"] if not (x in al and (al[x]["sec"] or al[x]["ins"]))]
+        elif not (c["negSecure"] or c["negInsecure"]):
+            out.append(("served-to-cd0-not-allowed", None))
+    return out
+
+
 def classify(what, item, c):
     """class and match fields of one failed condition.  Two classes: a verdict Secure (or an
     authenticated denial) that is not allowed, a verdict Insecure that is not allowed.  The fields
@@ -96,10 +116,10 @@ def classify(what, item, c):
         fields[kind(f)] = True
         if f["op"].startswith("forge") or f["op"] in ("swapKey", "childSide"):
             fields["op:" + f["op"]] = True
-    if what in ("secure-not-allowed", "neg-secure-not-allowed"):
-        if what == "secure-not-allowed" and item not in ITEMS:
+    if what in ("secure-not-allowed", "neg-secure-not-allowed", "ad-not-allowed"):
+        if item is not None and item not in ITEMS:
             return [("secure-unknown-item", fields)]
-        base, blamed = ((diag["base"]["sec"][item], diag["blame"]["sec"][item]) if what == "secure-not-allowed"
+        base, blamed = ((diag["base"]["sec"][item], diag["blame"]["sec"][item]) if item is not None
                         else (diag["base"]["neg"], diag["blame"]["neg"]))
         cls_ = "secure-not-allowed"
     else:
@@ -131,8 +151,8 @@ def run(res, tier, seed):
         "a response handed back with an error RCODE counts as an error; the additional section of the final response is not judged",
         "denial-of-existence semantics beyond 'every NSEC of the genuine proof is needed' are C08/C09; NSEC3 worlds, wildcard "
         "answers, CNAME chains, key-tag collisions and revoked keys are not generated",
-        "stage two of DESIGN.md (the same worlds through a server Catalog with a forwarding zone handler: RCODE / AD / answer "
-        "count for CD x DO) is modelled (Serve, C07_AD, checked by TLC) but not bound to build_forwarded_response",
+        "stage two (Catalog -> ForwardZoneHandler -> validating Resolver -> NameServerPool over the same simulated internet) "
+        "runs every case for CD=0/DO=1, single-fault cases for CD x DO; a fresh resolver per client query (no cache effects, C15)",
         "TLC and the JSON projection of cases/events are trusted",
     ]
     wd = vlib.workdir("c07")
@@ -175,6 +195,7 @@ def run(res, tier, seed):
     best_seen = {"Secure": 0, "Insecure": 0, "Bogus": 0}
     best_hit = {"Secure": 0, "Insecure": 0, "Bogus": 0}
     not_best = []
+    nserved = {}
     nshards = 6
     for (nm, wexpr, qexpr, counts) in (GEN_THOROUGH if thorough else GEN_QUICK):
         tla_p, cfg_p = vlib.wrapper(wd, "G_" + nm, "Gen_Chain", {"P_Worlds": wexpr, "P_Queries": qexpr, "P_Counts": counts}, GEN_CFG)
@@ -212,6 +233,17 @@ def run(res, tier, seed):
                             res.mismatch(cls_, fields, {"generator": nm, "mode": mode, "input": inp, "observed": obs,
                                                         "allowed": {"allow": c["allow"], "negSecure": c["negSecure"],
                                                                     "negInsecure": c["negInsecure"]}})
+                    if mode == "pool":
+                        for sv in v["served"]:
+                            res.evaluations += 1
+                            if sv["rcode"].startswith("HARNESS") or sv["rcode"] == "PANIC":
+                                raise vlib.ToolError(f"stage two failed: {sv['rcode']} in {inp}")
+                            nserved[(sv["rcode"], sv["ad"])] = nserved.get((sv["rcode"], sv["ad"]), 0) + 1
+                            for what, item in served_fails(c, sv):
+                                for cls_, fields in classify(what, item, c):
+                                    res.mismatch(cls_, dict(fields, cd=sv["cd"], do=sv["do"]),
+                                                 {"generator": nm, "stage": "server", "input": inp, "served": sv,
+                                                  "allowed": {"allow": c["allow"], "negSecure": c["negSecure"], "negInsecure": c["negInsecure"]}})
                     if not c["faults"]:
                         # witness accounting: does the un-faulted world reach what a complete validator reports?
                         best_seen[c["best"]] += 1
@@ -233,6 +265,9 @@ def run(res, tier, seed):
     if best_hit["Secure"] == 0 or best_hit["Insecure"] == 0:
         raise vlib.ToolError(f"vacuous binding: un-faulted worlds never reached Secure / Insecure ({best_hit})")
     res.exhaustive = True
+    if not nserved.get(("NOERROR", True)) or not nserved.get(("SERVFAIL", False)):
+        raise vlib.ToolError(f"vacuous binding of stage two: AD / SERVFAIL never served ({nserved})")
+    res.extra["served_responses_by_rcode_ad"] = {f"{k[0]}/ad={int(k[1])}": n for k, n in sorted(nserved.items())}
     res.extra["generated_cases_replayed"] = total
     res.extra["unfaulted_runs_by_best_verdict"] = best_seen
     res.extra["unfaulted_runs_reaching_it"] = best_hit
@@ -259,7 +294,7 @@ def run(res, tier, seed):
             with open(t) as f:
                 for line in f:
                     outf.write(line)
-                    if '"ev":"obs"' in line:
+                    if '"ev":"obs"' in line or '"ev":"served"' in line:
                         nobs += 1
     for p, n in rparts:
         res.traces += n
@@ -278,13 +313,14 @@ def run(res, tier, seed):
     res.extra["trace_observations_rejected"] = len(mism)
     res.extra["recorded_random_cases"] = sum(n for _, n in rparts)
     for m in mism:
-        fs = fails_of(m, m["items"], m["class"])
+        fs = served_fails(m, m["served"]) if "served" in m else fails_of(m, m["items"], m["class"])
         if not fs:
             raise vlib.ToolError(f"monitor rejected an observation the tables accept: {m['case']}")
         inp = {"world": m["world"], "q": m["q"], "faults": sorted(kind(f) + f"@{f['z']}" for f in m["faults"])}
         for what, item in fs:
             for cls_, fields in classify(what, item, m):
-                res.mismatch(cls_, fields, {"trace_case": m["case"], "input": inp, "observed": {"items": m["items"], "class": m["class"]},
+                res.mismatch(cls_, fields, {"trace_case": m["case"], "input": inp,
+                                            "observed": m["served"] if "served" in m else {"items": m["items"], "class": m["class"]},
                                             "allowed": {"allow": m["allow"], "negSecure": m["negSecure"], "negInsecure": m["negInsecure"]}})
     dump.close()
 
